@@ -324,6 +324,15 @@ func runJoinOrder(c *core.Ctx) {
 					okLater = true
 				}
 			}
+			// … or the goroutine is told to finish by closing the channel it waits on: before every
+			// join the closure calls a method that closes a channel field of its receiver, and the
+			// receive from that field (in a method of the same type) leaves its loop when the channel
+			// is closed (`defer func() { replies.Close(); <-written }()`)
+			if !okLater {
+				if how := stopByClose(c, cl, joinOps); how != "" {
+					okLater = true
+				}
+			}
 			an.Instrs(fn, func(in2 ssa.Instruction) {
 				d2, ok := in2.(*ssa.Defer)
 				if !ok || d2 == d || cancelOf(d2.Call.Value) == nil || !before(d, d2) {
@@ -347,6 +356,142 @@ func runJoinOrder(c *core.Ctx) {
 	if n == 0 {
 		c.NoAnchor(nil, "deferred joins (<-errs in a deferred closure)")
 	}
+}
+
+// recvFieldOf: v is a load of field #k of fn's receiver; returns k (or -1)
+func recvFieldOf(fn *ssa.Function, v ssa.Value) int {
+	if ct, ok := v.(*ssa.ChangeType); ok {
+		v = ct.X
+	}
+	u, ok := v.(*ssa.UnOp)
+	if !ok || u.Op != token.MUL {
+		return -1
+	}
+	fa, ok := u.X.(*ssa.FieldAddr)
+	if !ok || fn.Signature.Recv() == nil || len(fn.Params) == 0 || fa.X != ssa.Value(fn.Params[0]) {
+		return -1
+	}
+	return fa.Field
+}
+
+// closedEdgeLeaves: the comma-ok test of receive state i of sel has a closed edge that does not
+// come back to the select
+func closedEdgeLeaves(sel *ssa.Select, i int) bool {
+	cb := an.SelectCaseBlock(sel, i)
+	if cb == nil {
+		return false
+	}
+	// recvOk of state i is extract #1; received values follow
+	good := false
+	seen := map[*ssa.BasicBlock]bool{}
+	var walk func(b *ssa.BasicBlock)
+	walk = func(b *ssa.BasicBlock) {
+		if seen[b] || b == sel.Block() {
+			return
+		}
+		seen[b] = true
+		if iff, ok := an.LastInstr(b).(*ssa.If); ok {
+			if e, ok := iff.Cond.(*ssa.Extract); ok && e.Tuple == ssa.Value(sel) && e.Index == 1 {
+				if !an.Reachable(b.Succs[1], sel.Block(), nil, nil) {
+					good = true
+				}
+				return
+			}
+		}
+		for _, s := range b.Succs {
+			walk(s)
+		}
+	}
+	walk(cb)
+	if good {
+		return true
+	}
+	// `case _, ok := <-ch: …work…; if !ok { return }`: the test comes after the work
+	for _, r := range *sel.Referrers() {
+		e, ok := r.(*ssa.Extract)
+		if !ok || e.Index != 1 || e.Referrers() == nil {
+			continue
+		}
+		for _, u := range *e.Referrers() {
+			iff, ok := u.(*ssa.If)
+			if !ok {
+				continue
+			}
+			if an.Reachable(cb, iff.Block(), nil, map[*ssa.BasicBlock]bool{sel.Block(): true}) && !an.Reachable(iff.Block().Succs[1], sel.Block(), nil, nil) {
+				return true
+			}
+		}
+	}
+	return false
+}
+
+// stopByClose: every join in cl is dominated by a call of a method that closes a channel field
+// of its receiver whose receivers stop on close. Returns a description, "" if not.
+func stopByClose(c *core.Ctx, cl *ssa.Function, joinOps []ssa.Instruction) string {
+	P := c.P
+	how := ""
+	var stops []ssa.Instruction
+	for _, ci := range calls(cl) {
+		call, ok := ci.(*ssa.Call)
+		if !ok {
+			continue
+		}
+		sc := an.StaticCallee(&call.Call)
+		if sc == nil || !P.InModule(sc) || sc.Signature.Recv() == nil || len(sc.Blocks) == 0 {
+			continue
+		}
+		field := -1
+		for _, op := range an.ChanOps(sc) {
+			if op.Kind == an.OpClose {
+				if k := recvFieldOf(sc, op.Chan); k >= 0 {
+					field = k
+				}
+			}
+		}
+		if field < 0 {
+			continue
+		}
+		t := recvTypeName(sc)
+		stopsOnClose := false
+		for _, m := range P.ModFuncs {
+			if m.Parent() != nil || recvTypeName(m) != t || len(m.Blocks) == 0 {
+				continue
+			}
+			for _, op := range an.ChanOps(m) {
+				switch op.Kind {
+				case an.OpRange:
+					if recvFieldOf(m, op.Chan) == field {
+						stopsOnClose = true
+					}
+				case an.OpSelect:
+					for i, st := range op.Select.States {
+						if st.Dir == types.RecvOnly && recvFieldOf(m, st.Chan) == field && closedEdgeLeaves(op.Select, i) {
+							stopsOnClose = true
+						}
+					}
+				}
+			}
+		}
+		if stopsOnClose {
+			stops = append(stops, call)
+			how = fname(c, sc) + " closes the channel its receivers stop on"
+		}
+	}
+	if len(stops) == 0 {
+		return ""
+	}
+	for _, j := range joinOps {
+		dominated := false
+		for _, s := range stops {
+			if an.InstrDominates(s, j) {
+				dominated = true
+			}
+		}
+		if !dominated {
+			return ""
+		}
+	}
+	return how
 }
 
 func isClientMsgChan(t types.Type) bool {
